@@ -788,6 +788,18 @@ class Interp:
         elif isinstance(t, ast.Subscript):
             obj = self.ev(t.value, env)
             k = self.ev(t.slice, env)
+            if isinstance(obj, GA) and not aug and isinstance(k, tuple) and not getattr(self, "_in_ga_setitem", False):
+                # arr[rows, col] = value: through the repository's own GenomicArray.__setitem__ when it can be interpreted
+                fm = self.prog.find_method(obj.cls, "__setitem__")
+                if fm is not None:
+                    self._in_ga_setitem = True
+                    try:
+                        self.call(Closure(fm.node, {}, fm.mod, fm.qn), [obj, k, v], {})
+                        return
+                    except Undecided:
+                        pass                      # fall back to the summary below (same semantics as the pinned source)
+                    finally:
+                        self._in_ga_setitem = False
             self.lib.store_subscript(self, obj, k, v, aug)
         elif isinstance(t, ast.Attribute):
             obj = self.ev(t.value, env)
